@@ -150,6 +150,7 @@ def check(run: Run) -> None:
                     run.violation("R10.2", fi.module, qual, nnode, "validation_status is assigned something other than one of the three literals")
 
     _r10_7(run, res)
+    _r10_8(run, res)
 
 
 def _check_store(run: Run, it: Interp, fi: FuncInfo, node, st: dict, status: str, what: str) -> None:
@@ -224,3 +225,22 @@ def _r10_7(run: Run, res: Resolver) -> None:
                 run.violation("R10.7", mod, fi.qualname, c, "an error-producing step of Validator.validate is not guarded by the presence of a schema: schema-less validation may report errors, which the CLI's re-validation turns into VALIDATED for an unknown schema")
     if n_sites < 3:
         raise AnalysisError(f"Validator.validate: only {n_sites} error-producing step(s) recognised")
+
+
+def _r10_8(run: Run, res: Resolver) -> None:
+    """the schema lookups are pure: nothing they reach writes module-level state (so a VALIDATED answer cannot come from a stale cache)"""
+    from .c06 import module_state, writes_to_module_state
+
+    run.rule("R10.8", "schema lookups are pure: no function reachable from get_builtin_schema / load_schema_by_name / load_schema writes module-level state (no cache that could answer for a schema that is no longer there)", 3)
+    roots = ["octave_mcp.schemas.loader:get_builtin_schema", "octave_mcp.schemas.loader:load_schema_by_name", "octave_mcp.schemas.loader:load_schema"]
+    reach = res.reachable_from(roots)
+    for root in roots:
+        bad = []
+        for fq in sorted(res.reachable_from([root])):
+            fi = res.func_by_fqn(fq)
+            names = {n: k for n, _, k in module_state(fi.module)}
+            for node, what in writes_to_module_state(fi, res, names):
+                bad.append((fi, node, what))
+        run.instance("R10.8", root.split(":")[0], f"{root.split(':')[1]}: {len(res.reachable_from([root]))} reachable function(s), {len(bad)} write(s) to module state", ok=not bad)
+        for fi, node, what in bad:
+            run.violation("R10.8", fi.module, fi.qualname, node, f"{what} on the schema lookup path: a cached answer can report VALIDATED (with an old schema_version) for a schema that was changed, removed or is not visible from the current working directory")
